@@ -319,7 +319,7 @@ sexp sexp_read_bignum (sexp ctx, sexp in, sexp_uint_t init,
     if (base != 10) {
       res = sexp_read_error(ctx, "found non-base 10 float", SEXP_NULL, in);
     } else if (c=='.') {
-      res = sexp_read_float_tail(ctx, in, sexp_bignum_to_double(res), (sign==-1));
+      res = sexp_read_float_tail(ctx, in, sign * sexp_bignum_to_double(res), (sign==-1));
     } else {
       tmp = sexp_read_number(ctx, in, base, 0);
 #if SEXP_USE_COMPLEX
